@@ -7,7 +7,7 @@ from kirin.dialects import ilist
 from bloqade.shuttle import action, gate, schedule, spec
 from bloqade.shuttle.prelude import move, tweezer
 
-from .asserts import assert_sorted
+from .asserts import assert_in_range, assert_sorted
 
 
 def get_spec(num_x: int, num_y: int, spacing: float = 10.0) -> spec.ArchSpec:
@@ -61,6 +61,13 @@ def single_zone_move_cz(
     assert_sorted(ctrl_y_ids)
     assert_sorted(qarg_x_ids)
     assert_sorted(qarg_y_ids)
+
+    num_x = len(grid.get_xpos(zone))
+    num_y = len(grid.get_ypos(zone))
+    assert_in_range(ctrl_x_ids, num_x)
+    assert_in_range(ctrl_y_ids, num_y)
+    assert_in_range(qarg_x_ids, num_x)
+    assert_in_range(qarg_y_ids, num_y)
 
     start = grid.sub_grid(zone, ctrl_x_ids, ctrl_y_ids)
     target_atoms = grid.sub_grid(zone, qarg_x_ids, qarg_y_ids)
